@@ -170,10 +170,36 @@ pub fn plan_pipeline_case(check: &str, tier: Tier, seed: u64, idx: u64) -> Plan 
         "C16" | "C17" => ([Profile::Conflict, Profile::Mixed, Profile::Invalid, Profile::Beneficiary][rng.below(4) as usize], SchedMode::Strict),
         other => panic!("not a pipeline check: {other}"),
     };
+    // C04, odd cases: systematic enumeration. Consecutive cases share one block (generated from the block
+    // number, not the case index) and walk through its fault plans: every key the reference reads, every
+    // key only a stale attempt reads, the fee recipient x persistent / fail-once / fail-at-second-call.
+    let enum_slots: u64 = if tier == Tier::Quick { 24 } else { 64 };
+    let c04_enum = check == "C04" && idx % 2 == 1;
+    let (gen_seed, profile) = if c04_enum {
+        let block_no = (idx / 2) / enum_slots;
+        let mut brng = Prng::new(derive(seed, 0xe4e4_0000 ^ block_no));
+        (derive(seed, 0xe4e5_0000 ^ block_no), [Profile::Mixed, Profile::Conflict, Profile::Invalid, Profile::Precompile][brng.below(4) as usize])
+    } else {
+        (gen_seed, profile)
+    };
     let mut scenario = workload::generate(gen_seed, &gen_opts(profile, tier));
     let mut want = PipelineWant::default();
     let mut group = profile.name();
     match check {
+        "C04" if c04_enum => {
+            let plans = faultgen::enumerate_plans(&scenario);
+            let slot = ((idx / 2) % enum_slots) as usize;
+            let (key, mode, origin) = plans[slot % plans.len()].clone();
+            group = match (&mode, origin) {
+                (crate::scenario::FaultMode::Persistent, "stale-only-key") => "enumerated/persistent/stale-only-key",
+                (crate::scenario::FaultMode::Persistent, "beneficiary-key") => "enumerated/persistent/beneficiary-key",
+                (crate::scenario::FaultMode::Persistent, _) => "enumerated/persistent/reference-key",
+                (_, "stale-only-key") => "enumerated/transient/stale-only-key",
+                _ => "enumerated/transient",
+            };
+            scenario.faults.push(crate::scenario::FaultRule { key, mode, action: crate::scenario::FaultAction::Error, roles: 0 });
+            scenario.warm_cache = false;
+        }
         "C04" => {
             group = faultgen::add_error_faults(&mut scenario, &mut rng);
         }
@@ -359,7 +385,7 @@ pub fn check_spec(id: &str) -> CheckSpec {
         "C01" => CheckSpec { id: "C01", runs_quick: 150_000, runs_thorough: 6_000_000, level: "exploration", rule: rule_pipeline },
         "C02" => CheckSpec { id: "C02", runs_quick: 150_000, runs_thorough: 6_000_000, level: "exploration", rule: rule_pipeline },
         "C03" => CheckSpec { id: "C03", runs_quick: 150_000, runs_thorough: 6_000_000, level: "exploration", rule: rule_pipeline },
-        "C04" => CheckSpec { id: "C04", runs_quick: 120_000, runs_thorough: 5_000_000, level: "fault_enumeration", rule: rule_pipeline },
+        "C04" => CheckSpec { id: "C04", runs_quick: 120_000, runs_thorough: 5_000_000, level: "fault_enumeration", rule: "cases = (even indices) seeded (block, pre-state, config, fault plan, schedule) tuples with 1-2 random error rules; (odd indices) systematic enumeration: consecutive cases share one generated block and walk through its fault plans in a fixed order - every database key the in-order reference reads (account, slot, code hash, block hash), every key only a stale attempt reads (reference with one predecessor removed), the fee recipient, crossed with persistent / fail-once / fail-at-second-call - 24 plans per block in the quick tier, 64 in the thorough tier, each under its own seeded schedule (see reach.case_groups for the split); all run through the real pipeline under the simulator; a case is non-trivial if it had a re-execution, validation conflict, erroring attempt, sequential fallback, fired fault or did not complete; distinct = distinct abstract behaviour (per-tx #incarnations and #validations, abort kinds, fallback start, #commits) among non-trivial cases" },
         "C06" => CheckSpec { id: "C06", runs_quick: 80_000, runs_thorough: 3_000_000, level: "exploration", rule: "cases = seeded blocks (all profiles, all four delegated-safety policy combinations, a quarter on a persistently faulty database), each executed five ways: simulated parallel run, simulated parallel run with another worker count and schedule, min_parallel_txs above the block size, force_sequential, fallback_sequential() entry; non-trivial = a re-execution, erroring attempt, fallback or error result; distinct = distinct abstract behaviour" },
         "C05" => CheckSpec { id: "C05", runs_quick: 150_000, runs_thorough: 6_000_000, level: "exploration", rule: rule_pipeline },
         "C07" => CheckSpec { id: "C07", runs_quick: 120_000, runs_thorough: 5_000_000, level: "exploration", rule: rule_pipeline },
